@@ -501,6 +501,73 @@ func runC14(c *Ctx) {
 			r.Add(core.Obligation{Rule: "router-fields", Key: "router-fields RouteInformation.Prefix holds every byte with a valid bit", Func: core.FuncName(fn), Status: core.Undecided, Detail: "no store to RouteInformation.Prefix found in unmarshal"})
 		}
 	}
+	// the on-link prefix is cut at its length bit by bit: the value stored in PrefixInformation.Prefix comes out of a
+	// standard masking function applied with the prefix length, or out of a computation with a shift / and / remainder
+	// whose operand depends on the prefix length (a cut at byte granularity keeps the host bits of the last byte of a /60)
+	if fn := c.P.Method("", "PrefixInformation", "unmarshal"); fn != nil {
+		found := false
+		core.EachInstr(fn, func(i ssa.Instruction) {
+			st, ok := i.(*ssa.Store)
+			if !ok || norm(st.Addr) != "recv.Prefix" {
+				return
+			}
+			if cst, isC := st.Val.(*ssa.Const); isC && cst.IsNil() {
+				return // "no prefix" (a length the field cannot hold)
+			}
+			found = true
+			var plen ssa.Value
+			core.EachInstr(fn, func(j ssa.Instruction) {
+				if s2, ok := j.(*ssa.Store); ok && norm(s2.Addr) == "recv.PrefixLength" {
+					plen = s2.Val
+				}
+			})
+			dependsOnLen := func(v ssa.Value) bool {
+				if v == plen && plen != nil {
+					return true
+				}
+				for w := range dataSlice(fn, v) {
+					if (plen != nil && w == plen) || strings.HasSuffix(norm(w), "recv.PrefixLength") {
+						return true
+					}
+				}
+				return false
+			}
+			bitwise := false
+			how := ""
+			for v := range dataSlice(fn, st.Val) {
+				switch t := v.(type) {
+				case *ssa.Call:
+					if cal := t.Call.StaticCallee(); cal != nil {
+						switch cal.String() {
+						case "net.CIDRMask", "(net/netip.Addr).Prefix", "net/netip.PrefixFrom":
+							for _, a := range t.Call.Args {
+								if dependsOnLen(a) {
+									bitwise, how = true, cal.String()
+								}
+							}
+						}
+					}
+				case *ssa.BinOp:
+					switch t.Op {
+					case token.SHL, token.SHR, token.AND, token.AND_NOT, token.REM:
+						if dependsOnLen(t.X) || dependsOnLen(t.Y) {
+							bitwise, how = true, "operator "+t.Op.String()
+						}
+					}
+				}
+			}
+			s2, det := core.Proved, ""
+			if !bitwise {
+				s2 = core.Violated
+				det = "the value PrefixInformation.unmarshal stores in Prefix (" + norm(st.Val) + ") is computed without a bit-granular use of the prefix length (no CIDRMask / netip prefix masking, no shift, and, or remainder on it): the bits of the last byte beyond a length that is not a multiple of 8 are kept (2001:db8:0:12ff::/60 is recorded as 2001:db8:0:12ff:: where a reference decoder reads 2001:db8:0:12f0::)"
+			}
+			r.Add(core.Obligation{Rule: "router-fields", Key: "router-fields PrefixInformation.Prefix is cut at the prefix length bit by bit", Func: core.FuncName(fn), Pos: c.P.Pos(core.PosOf(i)), Status: s2,
+				Basis: "bit-granular use of the prefix length in the data slice of the stored value: " + how, Detail: det})
+		})
+		if !found {
+			r.Add(core.Obligation{Rule: "router-fields", Key: "router-fields PrefixInformation.Prefix is cut at the prefix length bit by bit", Func: core.FuncName(fn), Status: core.Undecided, Detail: "no store to PrefixInformation.Prefix in unmarshal"})
+		}
+	}
 	for f := range want {
 		if !seen[f] {
 			r.Add(core.Obligation{Rule: "router-fields", Key: "router-fields Router." + f, Func: core.FuncName(pp), Status: core.Violated, Detail: "Router." + f + " is no longer assigned in RA processing"})
